@@ -1734,6 +1734,10 @@ def lt(left: Any, right: Any) -> bool:
   # we detect such types to make `lt` to run faster.
   if isinstance(left, (int, float, bool, str)):
     return left < right
+  elif left is None or isinstance(left, utils.MissingValue):
+    # `right` has the same type order: both are None or both are missing
+    # values, which are equal.
+    return False
   elif isinstance(left, list):
     min_len = min(len(left), len(right))
     for i in range(min_len):
